@@ -297,7 +297,9 @@ class Polarization(BaseState):
         # If the state is in the composite envelope, measure there
         if isinstance(self.index, tuple) or isinstance(self.index, list):
             assert isinstance(self.composite_envelope, CompositeEnvelope)
-            return self.composite_envelope.measure(self)
+            return self.composite_envelope.measure(
+                self, separate_measurement=separate_measurement, destructive=destructive
+            )
 
         results: Dict[BaseState, int] = {}
         C = Config()
@@ -331,6 +333,15 @@ class Polarization(BaseState):
         self.expansion_level = ExpansionLevel.Label
         if destructive:
             self._set_measured()
+
+        # Unless measured separately, the other part of the envelope is measured too
+        if self.envelope is not None and not separate_measurement:
+            if not self.envelope.fock.measured:
+                out = self.envelope.fock.measure(
+                    separate_measurement=True, destructive=destructive
+                )
+                for m_key, m_value in out.items():
+                    results[m_key] = m_value
         return results
 
     def apply_operation(self, operation: Operation) -> None:
